@@ -353,6 +353,90 @@ fn mixed_space(ctx: &Ctx, n: usize) {
     );
 }
 
+/// orders beyond the exhaustive lattices: P*L*U products of small integers (exact in f64), dominant dense and Hessenberg
+/// matrices of order 7..65 - every block size, unrolling factor or size-gated path a solver might have is crossed
+fn large_order_space(ctx: &Ctx) {
+    let orders: Vec<usize> = vec![7, 8, 9, 10, 11, 12, 13, 15, 16, 17, 20, 24, 31, 32, 33, 40, 48, 63, 64, 65];
+    let kinds = 6usize;
+    let no = orders.len() as u64;
+    ctx.lattice(
+        &format!("f64 orders {:?}: P*L*U with 4 permutation kinds, dominant dense, Hessenberg x 3 right-hand sides", orders),
+        no * kinds as u64,
+        |idx| format!("n={} kind#{}", orders[(idx / kinds as u64) as usize], idx % kinds as u64),
+        |idx, acc| {
+            let n = orders[(idx / kinds as u64) as usize];
+            let kind = (idx % kinds as u64) as usize;
+            let mut a: F = vec![vec![0.0; n]; n];
+            if kind < 4 {
+                // L unit lower with entries in {-1,0,1}, U upper with diagonal +-1/+-2 and entries in {-1,0,1,2}: L*U exact
+                let mut l = vec![vec![0.0f64; n]; n];
+                let mut u = vec![vec![0.0f64; n]; n];
+                for i in 0..n {
+                    l[i][i] = 1.0;
+                    u[i][i] = [1.0, -2.0, 2.0, -1.0][(i * 3 + kind) % 4];
+                    for j in 0..i {
+                        l[i][j] = [0.0, 1.0, -1.0, 0.0, 1.0][(i * 7 + j * 3 + kind) % 5] * if i - j <= 3 { 1.0 } else { 0.0 };
+                    }
+                    for j in i + 1..n {
+                        u[i][j] = [1.0, 0.0, -1.0, 2.0, 0.0, 0.0][(i * 5 + j * 11 + kind) % 6] * if j - i <= 4 { 1.0 } else { 0.0 };
+                    }
+                }
+                let perm: Vec<usize> = match kind {
+                    0 => (0..n).collect(),
+                    1 => (0..n).rev().collect(),
+                    2 => (0..n).map(|i| (i + n / 3) % n).collect(),
+                    _ => (0..n).map(|i| if i % 2 == 0 && i + 1 < n { i + 1 } else if i % 2 == 1 { i - 1 } else { i }).collect(),
+                };
+                for i in 0..n {
+                    for j in 0..n {
+                        let mut sum = 0.0;
+                        for k in 0..n {
+                            sum += l[i][k] * u[k][j];
+                        }
+                        a[perm[i]][j] = sum;
+                    }
+                }
+            } else if kind == 4 {
+                for i in 0..n {
+                    for j in 0..n {
+                        a[i][j] = (((i * 13 + j * 7) % 9) as f64 - 4.0) * 0.25;
+                    }
+                    let s: f64 = a[i].iter().map(|x| x.abs()).sum();
+                    a[i][(i + n / 2) % n] = (s + 1.0) * if i % 2 == 0 { 1.0 } else { -1.0 }; // one dominant entry per row and per column
+                }
+            } else {
+                for i in 0..n {
+                    for j in 0..n {
+                        if j + 1 >= i {
+                            a[i][j] = ((i * 3 + j * 5) % 7) as f64 - 3.0;
+                        }
+                    }
+                    a[i][i] += if a[i][i] >= 0.0 { n as f64 } else { -(n as f64) };
+                    if i > 0 {
+                        a[i][i - 1] = [2.0, -1.0, 0.0][i % 3];
+                    }
+                }
+            }
+            acc.nontriv("order >= 7");
+            let xs: Vec<f64> = (0..n).map(|i| ((i % 5) as f64) - 2.0).collect();
+            let b0: Vec<f64> = (0..n).map(|i| (0..n).map(|j| a[i][j] * xs[j]).sum()).collect();
+            let rhs = vec![b0, vec![1.0; n], (0..n).map(|i| if i == n - 1 { 1.0 } else { 0.0 }).collect::<Vec<f64>>()];
+            for b in rhs.iter() {
+                acc.hit("f64 solves (x2 solvers)");
+                let mut local = Acc::new("tmp");
+                let res = catch(|| check_f64(&a, b, kind >= 4, Some(&mut local)));
+                acc.merge_worst(local);
+                let key = || format!("large n={} kind#{} b[0]={}", n, kind, b[0]);
+                match res {
+                    Ok(Ok(())) => {}
+                    Ok(Err(e)) => acc.fail(idx, key(), e),
+                    Err(p) => acc.fail(idx, key(), format!("unexpected panic: {}", p)),
+                }
+            }
+        },
+    );
+}
+
 // --- complex ---------------------------------------------------------------------------------------
 fn cletters(full: bool) -> Vec<(Cmplx, CQ)> {
     let c = |a: f64, b: f64| Cmplx::new(a, b);
@@ -567,7 +651,7 @@ fn scaled_space(ctx: &Ctx) {
 fn main() {
     let ctx = Ctx::from_args("C01");
     ctx.level("exploration");
-    ctx.rule("E1 exhaustive lattices: every n x n matrix over the stated alphabet (n=1,2 over {0,+-1,+-2}; n=3 over {0,+-1} quick / {0,+-1,+-2} thorough; n=4 over {0,+-1} thorough), every nonsingular one (decided by an independent cofactor determinant) with every right-hand side in {0,+-1}^n (n<=3); P*L*U family for every permutation P in S_n, n<=6; f64 twins; tiny-pivot lattice {0,1,-1,2,+-1e-20}; Complex<f64> lattices. Non-trivial: systems that need >=1 / >=2 row exchanges under partial pivoting, zero or tiny leading pivots, genuinely complex entries.");
+    ctx.rule("E1 exhaustive lattices: every n x n matrix over the stated alphabet (n=1,2 over {0,+-1,+-2}; n=3 over {0,+-1} quick / {0,+-1,+-2} thorough; n=4 over {0,+-1} thorough), every nonsingular one (decided by an independent cofactor determinant) with every right-hand side in {0,+-1}^n (n<=3); P*L*U family for every permutation P in S_n, n<=6; f64 twins; tiny-pivot lattice {0,1,-1,2,+-1e-20}; Complex<f64> lattices; structured families (P*L*U of small integers with four permutation kinds, dominant dense, Hessenberg) of order 7..65. Non-trivial: systems that need >=1 / >=2 row exchanges under partial pivoting, zero or tiny leading pivots, genuinely complex entries.");
     ctx.assume("exact verdicts hold for the enumerated alphabets and orders only; n>4 is reached only through the P*L*U family");
     ctx.assume("f64 lattices are restricted to matrices that are tiny (1e-20) perturbations of nonsingular small-integer matrices, i.e. well conditioned: any backward-stable solver must pass, so the 1e-12 threshold cannot alarm on correct code");
     ctx.threshold("backward_error_solve_basic", BE_THRESHOLD);
@@ -590,6 +674,7 @@ fn main() {
     tiny_space(&ctx, 3, ctx.pick(2, 9));
     mixed_space(&ctx, 2);
     mixed_space(&ctx, 3);
+    large_order_space(&ctx);
     scaled_space(&ctx);
     {
         let letters = z3();
